@@ -306,6 +306,23 @@ def validate_fs_model():
                 real_tree[tuple(PurePath_(p).parts)] = k
         model_tree = {loc: v[0] for loc, v in fs.nodes.items() if len(loc) > len(PurePath_(top).parts)}
         assert real_tree == model_tree, (trial, sorted(real_tree.items()), sorted(model_tree.items()))
+        # Path.resolve() (non-strict): the model's realpath against the OS, on existing, dangling and climbing paths
+        realtop = os.path.realpath(top)
+        for nm in names + ["a/../b", "a/b/../../x", "nosuch/../a", "a/b/c/d/e", "b/../../.."]:
+            p_ = os.path.join(base, "jail", nm)
+            try:
+                want = os.path.realpath(p_)
+                if os.path.realpath(top) != top:
+                    want = want.replace(realtop, top, 1)
+            except OSError:
+                want = None
+            try:
+                got = "/" + "/".join(fs.realpath(PurePath_(p_))[1:])
+            except Exception:  # noqa
+                got = None
+            if want is not None and got is not None:
+                assert got == want, (trial, nm, got, want)
+                checked += 1
         shutil.rmtree(top, ignore_errors=True)
     return checked
 
